@@ -198,8 +198,16 @@ def client_tracks(client_py: Path, pool_py: Path) -> bool:
         marks.append("_mark_in_flight(transport, True)" in src and src.count("_mark_in_flight(transport, in_flight)") >= 1)
     for m in ("close", "cancel"):
         fn = _fn(sess, m, site)
-        last = fn.body[-1]
-        marks.append(ast.unparse(last) == "self._drained = True")
+        # top-level `self._drained = True` somewhere after the drain loop (the `with suppress(...)` around the
+        # `_read_batch_with_log_check` loop), nowhere else
+        drain_at = [i for i, st in enumerate(fn.body) if isinstance(st, ast.With) and "_read_batch_with_log_check" in ast.unparse(st)]
+        sets = [i for i, st in enumerate(fn.body) if ast.unparse(st) == "self._drained = True"]
+        nested = ast.unparse(fn).count("self._drained = True") - len(sets)
+        if len(drain_at) != 1:
+            raise TranslationBroken(site, f"StreamSession.{m}: expected exactly one drain loop")
+        if nested or len(sets) > 1 or (sets and sets[0] < drain_at[0]):
+            raise TranslationBroken(site, f"StreamSession.{m}: _drained is set somewhere other than after the drain loop")
+        marks.append(bool(sets))
     slots = "_call_in_flight" in ast.unparse(_cls(_parse(pool_py), "_PooledTransport", site))
     marks.append(slots)
     helper = any(isinstance(n, ast.FunctionDef) and n.name == "_mark_in_flight" for n in tree.body)
